@@ -2906,7 +2906,10 @@ impl platform::Symbol for SymtabEntry {
     }
 
     fn has_name(&self) -> bool {
+        // A section symbol refers to its section whether or not the producer gave it a name. Our
+        // own relocatable output names them.
         object::read::elf::Sym::st_name(self, LittleEndian) != 0
+            && self.st_type() != object::elf::STT_SECTION
     }
 
     fn debug_string(&self) -> String {
